@@ -163,7 +163,7 @@ def _project_cases():
             out.append({"proj": "black-one-file-fails", "order": order, "n": n})
     # tests that run under another working directory (monkeypatch.chdir / os.chdir) next to clean files of the same directory
     for ll in (120, 60):
-        for n in (24, 30, 36):
+        for n in (20, 24, 30, 36):
             for order in ("chdir-first", "chdir-last", "chdir-same-file"):
                 for how in ("monkeypatch", "os"):
                     out.append({"proj": "chdir", "ll": ll, "n": n, "order": order, "how": how})
@@ -256,7 +256,8 @@ def _judge_project(c):
         return None
     if c["proj"] == "chdir":
         m2 = black.Mode(line_length=c["ll"])
-        b2 = "from inline_snapshot import snapshot\n\n\ndef test_table():\n    assert list(range(%d)) == snapshot([0])\n    assert 'a' == snapshot()\n" % c["n"]
+        # (a created list is formatted as a whole: its layout depends on the line length; an inserted-into list is exploded anyway)
+        b2 = "from inline_snapshot import snapshot\n\n\ndef test_table():\n    assert list(range(%d)) == snapshot()\n    assert 'a' == snapshot('b')\n" % c["n"]
         if c["how"] == "monkeypatch":
             t = "def test_cli(monkeypatch, tmp_path):\n    monkeypatch.chdir(tmp_path)\n    assert 'out' == snapshot()\n    assert [1, 2] == snapshot([1])\n"
         else:
